@@ -19,14 +19,16 @@ def record(kind="int", logfile=None, slow=None):
 
 
 def batch_ids(root, name):
-    files = glob.glob(os.path.join(crop_dir(root, name), "batches",
+    files = glob.glob(os.path.join(glob.escape(crop_dir(root, name)),
+                                   "batches",
                                    "xyz-batch-*.jbdmp"))
     return sorted(int(re.findall(r"xyz-batch-(\d+)\.jbdmp$", f)[0])
                   for f in files)
 
 
 def result_ids(root, name):
-    files = glob.glob(os.path.join(crop_dir(root, name), "results",
+    files = glob.glob(os.path.join(glob.escape(crop_dir(root, name)),
+                                   "results",
                                    "xyz-result-*.jbdmp"))
     return sorted(int(re.findall(r"xyz-result-(\d+)\.jbdmp$", f)[0])
                   for f in files)
